@@ -433,6 +433,10 @@ def run_script(ops_or_len, rng, profile, drv, res, with_listeners=True, outcomes
                 exp.append(["dictionary_set", [kind, lab] if known else ["?", -1], ".NS", "DEFAULT"])
                 if op.get("veto"):
                     exp.append(["dictionary_set", ["?", -1], ".NAME", tok["name"]])
+            if op["t"] == "setTopDef" and op.get("named") and out == "ok":
+                # Netlist.set_top_instance(definition, instance_name): two further data changes, both announced
+                exp.append(["dictionary_set", ["definition", op["d"]], ".NAME", tok["name"]])
+                exp.append(["dictionary_set", ["instance", op["i"]], ".NAME", tok["name"]])
             exp = sorted(exp, key=lambda e: json.dumps(e, default=str))
             if op.get("veto") and out != "ok":
                 # a vetoed compound constructor: the half-built object's own constructor announcements were made
